@@ -315,7 +315,7 @@ def harnesses(tier):
 def leg_concurrent(part, tier, shard, nshards):
     levels = [{"K": 0, "T": 0}, {"K": 1, "T": 0}, {"K": 2, "T": 0}, {"K": 3, "T": 0}]
     total = explore.explore_adaptive(harnesses(tier), levels, 3000 if tier == "quick" else 150000,
-                                     global_budget=None if tier == "quick" else 1500000)
+                                     global_budget=None if tier == "quick" else 700000)
     part.merge(total)
 
 
